@@ -690,6 +690,9 @@ func (bal *Balancer) balanceBlock(blkid arvados.SizedDigest, blk *BlockState) ba
 		// trashing replicas that aren't optimal positions for
 		// any storage class.
 		protMnt := map[*KeepMount]bool{}
+		// Devices (with existing replicas) behind the
+		// protected positions.
+		protDev := map[string]bool{}
 		// Replication planned so far (corresponds to wantMnt).
 		replWant := 0
 		// Protected replication (corresponds to protMnt).
@@ -708,6 +711,9 @@ func (bal *Balancer) balanceBlock(blkid arvados.SizedDigest, blk *BlockState) ba
 			if replProt < desired && slot.repl != nil && !protMnt[slot.mnt] {
 				unsafeToDelete[slot.repl.Mtime] = true
 				protMnt[slot.mnt] = true
+				if slot.mnt.DeviceID != "" {
+					protDev[slot.mnt.DeviceID] = true
+				}
 				replProt += slot.mnt.Replication
 			}
 			if replWant < desired && (slot.repl != nil || !slot.mnt.ReadOnly) {
@@ -753,12 +759,13 @@ func (bal *Balancer) balanceBlock(blkid arvados.SizedDigest, blk *BlockState) ba
 			underreplicated = safe < desired
 		}
 
-		// Avoid deleting wanted replicas from devices that
-		// are mounted on multiple servers -- even if they
-		// haven't already been added to unsafeToDelete
-		// because the servers report different Mtimes.
+		// Avoid deleting wanted or protected replicas from
+		// devices that are mounted on multiple servers --
+		// even if they haven't already been added to
+		// unsafeToDelete because the servers report
+		// different Mtimes.
 		for _, slot := range slots {
-			if slot.repl != nil && wantDev[slot.mnt.DeviceID] {
+			if slot.repl != nil && (wantDev[slot.mnt.DeviceID] || protDev[slot.mnt.DeviceID]) {
 				unsafeToDelete[slot.repl.Mtime] = true
 			}
 		}
